@@ -2980,7 +2980,11 @@ func (p *Posix) PutObject(ctx context.Context, po s3response.PutObjectInput) (s3
 		return s3response.PutObjectOutput{}, s3err.GetAPIError(s3err.ErrExistingObjectIsDirectory)
 	}
 
-	// if the versioninng is enabled first create the file object version
+	// if the versioninng is enabled the file object version is created
+	// before the new data is published - but only once the upload has been
+	// received and verified: a refused upload must not leave an archived
+	// copy of the current version behind (its id would be listed twice)
+	archiveCurrent := false
 	if p.versioningEnabled() && vStatus != "" && err == nil {
 		var isVersionIdMissing bool
 		if p.isBucketVersioningSuspended(vStatus) {
@@ -2990,12 +2994,7 @@ func (p *Posix) PutObject(ctx context.Context, po s3response.PutObjectInput) (s3
 			}
 			isVersionIdMissing = len(vIdBytes) == 0
 		}
-		if !isVersionIdMissing {
-			_, err := p.createObjVersion(*po.Bucket, *po.Key, d.Size(), acct)
-			if err != nil {
-				return s3response.PutObjectOutput{}, fmt.Errorf("create object version: %w", err)
-			}
-		}
+		archiveCurrent = !isVersionIdMissing
 	}
 	if errors.Is(err, syscall.ENAMETOOLONG) {
 		return s3response.PutObjectOutput{}, s3err.GetAPIError(s3err.ErrKeyTooLong)
@@ -3064,6 +3063,13 @@ func (p *Posix) PutObject(ctx context.Context, po s3response.PutObjectInput) (s3
 		return s3response.PutObjectOutput{}, s3err.GetAPIError(s3err.ErrIncompleteBody)
 	}
 	verifhook.At("put.body-done", *po.Bucket, *po.Key)
+
+	if archiveCurrent {
+		_, err := p.createObjVersion(*po.Bucket, *po.Key, d.Size(), acct)
+		if err != nil {
+			return s3response.PutObjectOutput{}, fmt.Errorf("create object version: %w", err)
+		}
+	}
 
 	dir := filepath.Dir(name)
 	if dir != "" {
